@@ -64,6 +64,8 @@ func exec(op string) (res string) {
 			return "bad-op"
 		}
 		return gocql.VerifHash("random", k)
+	case "randomk":
+		return gocql.VerifHash("random", hx(1))
 	case "ordlt":
 		return fmt.Sprint(gocql.VerifHashLess("ordered", hx(1), hx(2)))
 	case "parsem", "parsemx":
@@ -727,6 +729,21 @@ func main() {
 			op += " " + genPl(r, -1)
 			out.Case(op, exec(op), "rkn@/"+name, true)
 		}
+	}
+	// the Random partitioner on the KEY (the model computes MD5 itself): every length 0..130 (the padding boundaries 55 / 56,
+	// 63 / 64 / 65, 119 / 120 included), long keys, placed keys
+	for rep := 0; rep < 3*mult; rep++ {
+		for n := 0; n <= 130; n++ {
+			op := "randomk " + vh.Hex(genKey(r, n))
+			out.Case(op, exec(op), fmt.Sprintf("randomk/chunks%d", (n+8)/64+1), n > 0)
+		}
+	}
+	for i := 0; i < 150*mult; i++ {
+		op := "randomk " + vh.Hex(genKey(r, 131+r.Intn(1500)))
+		if i%3 == 0 {
+			op += " " + genPl(r, -1)
+		}
+		out.Case(op, exec(op), "randomk/long", true)
 	}
 	// the routing-key info cache over histories of one session (rkc.go)
 	for i := 0; i < 1500*mult; i++ {
